@@ -78,6 +78,16 @@ func (s *Service) CreatePin(ctx context.Context, ref boson.Address, traverse boo
 	}
 
 	if traverse {
+		// a reference that already has its root pin was traversed by the
+		// call that created it: pinning its chunks once more would leave
+		// counts that a single DeletePin does not take back
+		has, err := s.HasPin(ref)
+		if err != nil {
+			return err
+		}
+		if has {
+			return nil
+		}
 		if err := s.traverser.Traverse(ctx, ref, iterFn); err != nil {
 			return fmt.Errorf("traversal of %q failed: %w", ref, err)
 		}
